@@ -23,7 +23,14 @@ def dict_stores(block: tuple, target: Optional[S] = None) -> list[tuple[S, S, tu
             tag = st[0]
             if tag == "set" and len(st) == 3 and isinstance(st[1], tuple) and st[1] and st[1][0] == "s":
                 if target is None or st[1][1] == target:
-                    out.append((st[1][2], st[2], conds))
+                    # a conditional value is one store per alternative, each under its own condition
+                    def split(v, cs):
+                        if isinstance(v, tuple) and v[:1] == ("ite",) and len(v) == 4:
+                            split(v[2], cs + (v[1],))
+                            split(v[3], cs + (mk_not(v[1]),))
+                        else:
+                            out.append((st[1][2], v, cs))
+                    split(st[2], conds)
             elif tag == "if":
                 walk(st[2], conds + (st[1],))
                 walk(st[3], conds + (mk_not(st[1]),))
